@@ -32,6 +32,7 @@ func (c *Ctx) intrinsic(fn *ssa.Function, name string) (intrinsicFn, bool) {
 		c.registerStd(t)
 		c.registerZZ(t)
 		c.registerTensorIntrinsics(t)
+		c.registerSample(t)
 		sharedTab = t
 	})
 	if h, ok := sharedTab[name]; ok {
@@ -283,13 +284,27 @@ func (c *Ctx) registerStd(tab map[string]intrinsicFn) {
 	}
 	tab["math.Float32frombits"] = func(c *Ctx, fn *ssa.Function, a []Value) Value {
 		if c.Ring {
-			panic(c.abort("Float32frombits in ring mode"))
+			if t := a[0].(*smt.Term); t.IsConst() {
+				f := math.Float32frombits(uint32(t.U))
+				if f != f || math.IsInf(float64(f), 0) {
+					panic(c.abort("Float32frombits: non-finite constant in ring mode"))
+				}
+				return c.St.RealF(float64(f))
+			}
+			panic(c.abort("Float32frombits of a symbolic value in ring mode"))
 		}
 		return c.St.BitsToFP(a[0].(*smt.Term), smt.FP32)
 	}
 	tab["math.Float64frombits"] = func(c *Ctx, fn *ssa.Function, a []Value) Value {
 		if c.Ring {
-			panic(c.abort("Float64frombits in ring mode"))
+			if t := a[0].(*smt.Term); t.IsConst() {
+				f := math.Float64frombits(t.U)
+				if f != f || math.IsInf(f, 0) {
+					panic(c.abort("Float64frombits: non-finite constant in ring mode"))
+				}
+				return c.St.RealF(f)
+			}
+			panic(c.abort("Float64frombits of a symbolic value in ring mode"))
 		}
 		return c.St.BitsToFP(a[0].(*smt.Term), smt.FP64)
 	}
